@@ -6,6 +6,7 @@ package main
 // differential comparison of the accept set with math/big.
 
 import (
+	"encoding/json"
 	"fmt"
 	"math/big"
 	"strconv"
@@ -500,6 +501,93 @@ func otherEntryPoints(c *Ctx, s string, prec uint32, mode uint8, onlyAccepted bo
 		} else {
 			same("ParseDecimal", r, true)
 		}
+	}
+}
+
+// canonicalAfterParseLayer (C08): whatever a text entry point is given — accepted or
+// rejected — the receiver it leaves behind is a canonical Decimal.
+func canonicalAfterParseLayer(tier string) Layer {
+	maxLen := 5
+	if tier == "thorough" {
+		maxLen = 6
+	}
+	A := parseAlphabet
+	extra := []string{"1e2147483648", "1e-2147483650", "0.5e2147483648", "9999999999999999999999e2147483640", "1e99999999999999999999", "1e-99999999999999999999",
+		"0x1p2147483648", "0b1p-2147483650", "12345678901234567890123456789012345678901234567890x", "1_000_000_000_000_000_000_000e", "Infinity", "+Inf.", "0x.p1", "1e+", "--1", "1..2"}
+	return Layer{
+		Name:   "T1-text-input-leaves-canonical",
+		Units:  len(A) + 1,
+		Bounds: fmt.Sprintf("every string of length 0..%d over the 14 symbols %q and %d long/out-of-range literals, through SetString, Parse(·,0), UnmarshalText, json.Unmarshal and fmt.Sscan, into receivers {held a 4-word value (precision 3), previous result inexact (precision 5), 1-word value in a 40-word dirty buffer (precision 19)}: accepted or rejected, the receiver is canonical afterwards", maxLen, A, len(extra)),
+		Run: func(c *Ctx, u int) {
+			try := func(s string) {
+				for pi, pre := range []int{preLonger, preInexact, preBigDirty} {
+					prec := []uint32{3, 5, 19}[pi]
+					for ei := 0; ei < 5; ei++ {
+						if c.Skip() {
+							continue
+						}
+						z := buildPre(pre, prec, uint8(ei))
+						var err error
+						name := ""
+						pv, _ := protect(func() {
+							switch ei {
+							case 0:
+								name = "SetString"
+								if _, ok := z.SetString(s); !ok {
+									err = fmt.Errorf("rejected")
+								}
+							case 1:
+								name = "Parse"
+								_, _, err = z.Parse(s, 0)
+							case 2:
+								name = "UnmarshalText"
+								err = z.UnmarshalText([]byte(s))
+							case 3:
+								name = "json.Unmarshal"
+								err = json.Unmarshal([]byte(strconv.Quote(s)), z)
+							case 4:
+								name = "Sscan"
+								_, err = fmt.Sscan(s, z)
+							}
+						})
+						key := func() string { return fmt.Sprintf("%s(%q) into %s prec=%d", name, s, preNames[pre], prec) }
+						if pv != nil {
+							c.Fail(key(), fmt.Sprintf("panic: %v", pv))
+							continue
+						}
+						if err != nil {
+							c.NonTrivial()
+						}
+						c.Outcome(b2u(err == nil))
+						if msg := Canonical(Observe(z)); msg != "" {
+							c.Fail(key(), fmt.Sprintf("receiver malformed afterwards (err=%v): %s", err, msg))
+						}
+					}
+				}
+			}
+			if u == len(A) {
+				try("")
+				for _, s := range extra {
+					try(s)
+					try("-" + s)
+				}
+				return
+			}
+			var rec func(s string)
+			rec = func(s string) {
+				if c.Done() {
+					return
+				}
+				try(s)
+				if len(s) >= maxLen {
+					return
+				}
+				for i := 0; i < len(A); i++ {
+					rec(s + string(A[i]))
+				}
+			}
+			rec(string(A[u]))
+		},
 	}
 }
 
